@@ -17,6 +17,10 @@ pub struct TrackSpec {
     /// that the track carries a merge history of its own
     #[serde(default)]
     pub absorbed: Vec<u64>,
+    /// the track is created under this id and renamed with `set_track_id` afterwards (what the
+    /// trackers do with their candidates); its merge history keeps the id it was created with
+    #[serde(default)]
+    pub created_as: Option<u64>,
 }
 
 #[derive(Clone, Debug, PartialEq, Serialize, Deserialize)]
@@ -166,6 +170,18 @@ pub fn gen_spec(r: &mut Rng, ids: u64, faults: bool, max_obs: u64) -> TrackSpec 
         poison_merge: faults && r.chance(1, 10),
         obs,
         absorbed: if r.chance(1, 4) { (0..r.range(1, 2)).map(|_| 100 + r.below(50)).collect() } else { vec![] },
+        created_as: None,
+    }
+    .renamed_sometimes()
+}
+
+impl TrackSpec {
+    /// a fixed function of the spec (no generator randomness): one spec in four is a renamed track
+    fn renamed_sometimes(mut self) -> Self {
+        if (self.id as usize + self.obs.len() + self.group as usize) % 4 == 3 {
+            self.created_as = Some(9000 + (self.id % 1000));
+        }
+        self
     }
 }
 
@@ -435,5 +451,40 @@ pub fn gen_case(seed: u64, o: &GenOpts) -> StoreCase {
             });
         }
     }
-    StoreCase { cfg, ops }
+    // ids far away from zero in a fifth of the histories (own random stream): every id of the
+    // history is shifted by the same offset, so ids above u32::MAX and next to u64::MAX occur
+    let off = *Rng::new(seed ^ 0x1D0F_F5E7_0000_000D).pick(&[0u64, 0, 0, 0, 1 << 32, (1 << 40) + 1, u64::MAX - 4096, (7 << 32) | 3, 0, 0]);
+    let mut case = StoreCase { cfg, ops };
+    if off != 0 {
+        offset_ids(&mut case, off);
+    }
+    case
+}
+
+fn offset_ids(case: &mut StoreCase, off: u64) {
+    let sh = |id: &mut u64| *id = id.wrapping_add(off);
+    let spec = |t: &mut TrackSpec| {
+        t.id = t.id.wrapping_add(off);
+        for a in t.absorbed.iter_mut() {
+            *a = a.wrapping_add(off);
+        }
+    };
+    for op in case.ops.iter_mut() {
+        match op {
+            Op::AddTrack(t) | Op::NewTrack(t) => spec(t),
+            Op::Add { id, .. } => sh(id),
+            Op::Fetch(v) => v.iter_mut().for_each(sh),
+            Op::MergeOwned { dest, src, .. } => {
+                sh(dest);
+                sh(src);
+            }
+            Op::MergeExt { dest, src, .. } | Op::MergeNoblock { dest, src, .. } => {
+                sh(dest);
+                spec(src);
+            }
+            Op::ForeignIssue { cands, .. } => cands.iter_mut().for_each(spec),
+            Op::OwnedIssue { ids, .. } => ids.iter_mut().for_each(sh),
+            _ => {}
+        }
+    }
 }
